@@ -3,10 +3,15 @@ use serde_json::{Map, Value as J};
 
 pub mod common;
 pub mod c01;
+pub mod c02;
+pub mod c05;
 pub mod c10;
+pub mod c11;
+pub mod c12;
+pub mod tokens;
 
 pub fn all() -> Vec<&'static dyn Prop> {
-    vec![&c01::C01, &c10::C10]
+    vec![&c01::C01, &c02::C02, &c05::C05, &c10::C10, &c11::C11, &c12::C12]
 }
 
 pub fn find(id: &str) -> Option<&'static dyn Prop> {
